@@ -486,8 +486,13 @@ def recreate_scenarios():
                       'sops': [{'op': 'add', 'q': 'p3', 'cfg': cfg3}]}
                 p3 = {'vars': ['p3', 's'], 'writes': {'s': [1]}, 'ts': [ts_old], 'cond': [True]}
                 for nest in (False, True):
-                    sc = {'procs': copy.deepcopy({'p1': p1, 'p2': p2, 'p3': p3}),
-                          'order': ['p1', 'p2', 'p3'], 'nest': nest,
-                          'calls': [[8, True]], 'emit_step': 1, 'init': {}}
-                    out.append(sc)
+                    # (in the calls that are not forced the old process, whose
+                    #  interval does not fit, is waiting with a deferred timestep
+                    #  and nothing in flight when its path is deleted)
+                    for calls in ([[8, True]], [[2, False], [7, True]],
+                                  [[3, False], [3, False], [4, True]]):
+                        sc = {'procs': copy.deepcopy({'p1': p1, 'p2': p2, 'p3': p3}),
+                              'order': ['p1', 'p2', 'p3'], 'nest': nest,
+                              'calls': [list(c) for c in calls], 'emit_step': 1, 'init': {}}
+                        out.append(sc)
     return out
